@@ -8,7 +8,7 @@ import os
 
 LEVEL = "fault_enumeration"
 RULE = (
-    "all sequences over {E exec, F exec->CHECK CONDITION, R replug (node replaced: new inode), U unplug, X replug whose "
+    "all sequences over {E exec, F exec->CHECK CONDITION, e/f the same with en_raw_sense=True, R replug (node replaced: new inode), U unplug, X replug whose "
     "stale-handle close() fails, O replug whose re-open fails once} up to length 4 (quick) / 5 (thorough), each followed by one of {nothing, close(), with-exit, "
     "with-exit-by-exception, facade with-exit}, x detection {on,off} x {read-only, read-write}; plus ISCSIDevice close/with "
     "sequences.  Invariants at the binding: handle open, inode of the handle == inode at the path (detection on), original "
@@ -23,7 +23,7 @@ ASSUMPTIONS = [
     "next command uses a fresh handle, the stale descriptor is not leaked",
 ]
 
-NONTERM = "EFRUXO"
+NONTERM = "EFefRUXO"  # e/f: the same commands executed with en_raw_sense=True (the ATA pass-through convention)
 TERM = ["", "C", "W", "Y", "S"]
 
 
@@ -182,7 +182,9 @@ def run_sequence(ctx, w, seq, term, detect, rw, link=False, facade=False):
     quiescent("after open")
     for pos, evn in enumerate(seq):
         state["pos"] = pos
-        if evn in "EF":
+        if evn in "EFef":
+            raw = evn in "ef"
+            evn = evn.upper()
             if disturbed:
                 nontrivial = True
             w.status, w.sense = (0, None) if evn == "E" else (2, SN.build(0x70, 0, 6, 0x29, pos, 18))
@@ -190,7 +192,14 @@ def run_sequence(ctx, w, seq, term, detect, rw, link=False, facade=False):
             armed_close, armed_open = w.fail_next_close, w.fail_next_open
             cmd = TestUnitReady(E.spc.TEST_UNIT_READY)
             try:
-                dev.execute(cmd)
+                if raw:
+                    ctx.count("raw_sense_executes")
+                    if fac is not None and pos % 2:
+                        fac.execute(cmd, en_raw_sense=True)
+                    else:
+                        dev.execute(cmd, en_raw_sense=True)
+                else:
+                    dev.execute(cmd)
                 outcome, exc = "returned", None
             except Exception as e:  # noqa: BLE001
                 outcome, exc = "raised", e
@@ -225,7 +234,11 @@ def run_sequence(ctx, w, seq, term, detect, rw, link=False, facade=False):
                     fail("command_not_sent_once", "sgio.execute reached %d times for one execute()" % sent)
                 if evn == "E" and outcome != "returned":
                     fail("healthy_execute_raises.%s" % type(exc).__name__, "execute on a healthy node raised %r" % exc)
-                if evn == "F" and not isinstance(exc, dev.CheckCondition):
+                if evn == "F" and raw:
+                    # the caller asked for the sense data instead of the exception (either way is C07's business, not ours)
+                    if exc is not None and not isinstance(exc, dev.CheckCondition):
+                        fail("raw_sense_execute_raises.%s" % type(exc).__name__, "execute(en_raw_sense=True) raised %r" % exc)
+                elif evn == "F" and not isinstance(exc, dev.CheckCondition):
                     fail("check_condition_not_raised", "CHECK CONDITION gave %s" % (type(exc).__name__ if exc else "no exception"))
             if must_close and w.fail_next_close:
                 w.fail_next_close = False
@@ -299,6 +312,14 @@ def run_sequence(ctx, w, seq, term, detect, rw, link=False, facade=False):
             fail("close_raises.%s" % type(e).__name__, "terminal %s raised %r" % (term, e))
         is_open = False
         quiescent("after close")
+        # ... and stays released exactly once when the objects go away afterwards
+        dev = fac = s = cmd = None
+        w.dropped = getattr(w, "dropped", 0) + 1
+        if w.dropped % 64 == 0:
+            import gc
+
+            gc.collect()
+        quiescent("after dropping the device object")
         for h in w.handles:
             if h.real_closes != 1:
                 fail("handle_closed_%d_times" % h.real_closes, "an OS handle was released %d times" % h.real_closes)
@@ -321,7 +342,7 @@ def run(shard, ctx):
     w = World()
     if shard.get("facade"):
         for n in range(0, shard["L"] + 1):
-            for tup in itertools.product("EFRA", repeat=n):
+            for tup in itertools.product("EFeRA", repeat=n):
                 if "A" not in tup:
                     continue
                 for term in ("", "S"):
@@ -354,6 +375,8 @@ def run_iscsi(ctx):
     import pyscsi.pyscsi.scsi_enum_command as E
     from pyscsi.pyscsi.scsi import SCSI
     from pyscsi.pyscsi.scsi_cdb_testunitready import TestUnitReady
+
+    import gc
 
     isc = sys.modules["iscsi"]
     st = {"status": 0}
@@ -394,13 +417,19 @@ def run_iscsi(ctx):
                 ctx.count("iscsi_sequences")
                 if len(ctxs) != 1 or ctxs[0].disconnects != 1 or ctxs[0].connected:
                     ctx.fail("C15:iscsi.session_not_released_once", "contexts=%d disconnects=%r" % (len(ctxs), [c.disconnects for c in ctxs]), wit)
+                # the session stays released exactly once when the device object goes away afterwards
+                dev = s = None
+                gc.collect()
+                ctx.count("iscsi_objects_dropped")
+                if len(ctxs) == 1 and ctxs[0].disconnects != 1:
+                    ctx.fail("C15:iscsi.session_released_again_when_object_dropped", "disconnect() ran %d times once the released device object was garbage collected" % ctxs[0].disconnects, wit)
 
 
 def finalize(merged, tier):
     c = merged["counters"]
     if c.get("sequences", 0) == 0 or c.get("events", 0) == 0:
         merged["inconclusive"].append("no event sequence executed")
-    return {"exhaustive": True, "exhaustive_dimension": "all event sequences up to length %s over the 5-event alphabet x 5 endings x 4 configurations"
+    return {"exhaustive": True, "exhaustive_dimension": "all event sequences up to length %s over the 8-event alphabet x 5 endings x 8 configurations"
             % ",".join(sorted(merged["sets"].get("sequence_max_length", ["?"])))}
 
 
